@@ -145,10 +145,13 @@ def wrap64(z):
 
 
 def add_values(a, b):
+    """a + b: a value, "type" for a type error, None where the reference does not say (float arithmetic, list + list, ...)"""
     if a[0] == "i" and b[0] == "i":
         return ("i", wrap64(a[1] + b[1]))
     if a[0] == "s" and b[0] == "s":
         return ("s", a[1] + b[1])
+    if a[0] in "ntf" or (a[0] == "s" and b[0] in "intf") or (a[0] == "i" and b[0] in "sntf"):
+        return "type"
     return None
 
 
@@ -291,6 +294,8 @@ def ref_step(st, op):
             elif name == "addassign":
                 w = add_values(l2[i], a[2])
                 if w is None:
+                    return None
+                if w == "type":
                     return same("Etype")
                 l2[i] = w
             else:
@@ -307,6 +312,8 @@ def ref_step(st, op):
                     return same("Ekey")
                 w = add_values(m2[k[1]], a[2])
                 if w is None:
+                    return None
+                if w == "type":
                     return same("Etype")
                 m2[k[1]] = w
             else:
@@ -1110,9 +1117,9 @@ def _body(res, tier, obs, model, work, proved):
     cov = res.coverage
     rng = C.Rng(res.seed)
     q = tier == "quick"
-    n_store = 3000 if q else 200000
-    n_bytes = 600 if q else 30000
-    n_str = 1500 if q else 60000
+    n_store = 5000 if q else 200000
+    n_bytes = 1000 if q else 30000
+    n_str = 2000 if q else 60000
     maxlen = 40
     cases = []      # (kind, route, ops)
     for line in corpus_lines():
